@@ -229,7 +229,8 @@ def search_spec_violation(ctx, nseq, maxlen):
 
 
 def run(ctx):
-    proved = ctx.prove("LaytheVerif.Props.C07")
+    # C07Sched imports Props.C07 (queue level) and Props.C08 (scheduler model): one closure, one audit
+    proved = ctx.prove("LaytheVerif.Props.C07Sched", extra_targets=("driver", "drv_sched"))
     ok_c, out_c = common.cargo_build()
     if not ok_c:
         ctx.violation("harness_build", {"kind": "harness-build-failed", "broken": "cargo build of /verif/harness against /repo",
@@ -248,10 +249,14 @@ def run(ctx):
             ctx.violation("chanq_spec", found)
         else:
             ctx.violation("proof", {"kind": "proof-obligation-failed", "broken": what, "detail": detail}, no_input=True)
-    stream_chanq(ctx, nseq, maxlen)
+    if not stream_chanq(ctx, nseq, maxlen):
+        return
+    # fiber level: the retry layer of op_send/op_receive under the real scheduler
+    from . import c07_sched
+    c07_sched.stream_sched(ctx, ctx.n(6000, 150000))
     ctx.assumptions += [
         "the queue model (Model/ChanQueue.lean) is hand-written from channel_queue.rs; agreement is checked on the chanq stream, not proved",
-        "fiber-level retry (op_send/op_receive) is covered by C08's scheduler stream",
+        "fiber-level retry (op_send/op_receive): theorems C07_retry_once / C07_sched_fifo on the scheduler model of C08, stream sched_fifo judges program output with a per-channel FIFO monitor",
     ]
 
 
